@@ -32,5 +32,8 @@ WordRow(off, w, withData) ==
 RECURSIVE WordRows(_, _, _, _, _)
 WordRows(ws, i, pktOff, df, withData) ==
    IF i > Len(ws) THEN << >> ELSE WordRow(WordOffset(pktOff, df, i - 1), ws[i], withData) \o WordRows(ws, i + 1, pktOff, df, withData)
-PacketRows(off, r, payload, withData) == << RdhRow(off, r) >> \o WordRows(Cut(DataFormat(r), payload), 1, off, DataFormat(r), withData)
+\* a payload ending in more than 15 bytes of 0xFF cannot be cut: the RDH row is printed, a fatal error is reported and the view ends there (ViewEnds)
+ViewEnds(payload) == PadErr(payload)
+PacketRows(off, r, payload, withData) == IF ViewEnds(payload) THEN << RdhRow(off, r) >>
+                                         ELSE << RdhRow(off, r) >> \o WordRows(Cut(DataFormat(r), payload), 1, off, DataFormat(r), withData)
 ================================================================================
